@@ -61,7 +61,15 @@ func (process *Process) Stderr() []string {
 }
 
 func (process *Process) ExitCode() int {
+	process.stderrLock.RLock()
+	defer process.stderrLock.RUnlock()
 	return process.exitCode
+}
+
+func (process *Process) setExitCode(exitCode int) {
+	process.stderrLock.Lock()
+	defer process.stderrLock.Unlock()
+	process.exitCode = exitCode
 }
 
 func (process *Process) Pid() int {
@@ -158,11 +166,11 @@ func (process *Process) run() {
 			if err := process.cmd.Wait(); err != nil {
 				if _, ok := err.(*exec.ExitError); !ok {
 					log.Printf("Converter (%s): Failed to wait for process: %q", process.converterName, err)
-					process.exitCode = -1
+					process.setExitCode(-1)
 				}
 			}
 			if process.cmd.ProcessState != nil {
-				process.exitCode = process.cmd.ProcessState.ExitCode()
+				process.setExitCode(process.cmd.ProcessState.ExitCode())
 			}
 
 			// drain input channel to unblock caller
@@ -178,9 +186,9 @@ func (process *Process) run() {
 	if err := process.cmd.Wait(); err != nil {
 		if _, ok := err.(*exec.ExitError); !ok {
 			log.Printf("Converter (%s): Failed to wait for process: %q", process.converterName, err)
-			process.exitCode = -1
+			process.setExitCode(-1)
 			return
 		}
 	}
-	process.exitCode = process.cmd.ProcessState.ExitCode()
+	process.setExitCode(process.cmd.ProcessState.ExitCode())
 }
